@@ -134,3 +134,87 @@ pub fn ser_pattern(pattern: &str, refs: &mut RefTables, cache: &RefCache) -> Opt
     ser(&ast, refs, cache, &mut s)?;
     Some(s)
 }
+
+
+/// Registry keys in the order the compiler registers classes (mirrors `ComparableAst::eq`).
+#[derive(Default)]
+pub struct RegKeys {
+    pub keys: Vec<String>,
+}
+
+impl RegKeys {
+    fn id(&mut self, key: String) -> usize {
+        if let Some(i) = self.keys.iter().position(|k| *k == key) {
+            return i;
+        }
+        self.keys.push(key);
+        self.keys.len() - 1
+    }
+}
+
+/// Serialisation for the compiler model: keeps the repetition operator kinds; leaves carry the
+/// registry id. `E | L id | C n .. | A n .. | Q x | S x | P x | X n x | T n x | B m n x`.
+pub fn ser_cast(ast: &Ast, reg: &mut RegKeys, out: &mut String) -> Option<()> {
+    match ast {
+        Ast::Empty(_) => out.push_str(" E"),
+        Ast::Literal(l) => {
+            let id = reg.id(format!("lit:{}:{:?}", l.c as u32, l.kind));
+            let _ = write!(out, " L {}", id);
+        }
+        Ast::Dot(_) => {
+            let id = reg.id("dot".to_string());
+            let _ = write!(out, " L {}", id);
+        }
+        Ast::ClassUnicode(_) | Ast::ClassPerl(_) | Ast::ClassBracketed(_) => {
+            let kind = match ast {
+                Ast::ClassUnicode(_) => "u",
+                Ast::ClassPerl(_) => "p",
+                _ => "b",
+            };
+            let id = reg.id(format!("cls:{}:{}", kind, ast.to_string().escape_default()));
+            let _ = write!(out, " L {}", id);
+        }
+        Ast::Repetition(r) => {
+            if !r.greedy {
+                return None;
+            }
+            match &r.op.kind {
+                RepetitionKind::ZeroOrOne => out.push_str(" Q"),
+                RepetitionKind::ZeroOrMore => out.push_str(" S"),
+                RepetitionKind::OneOrMore => out.push_str(" P"),
+                RepetitionKind::Range(RepetitionRange::Exactly(n)) => {
+                    let _ = write!(out, " X {}", n);
+                }
+                RepetitionKind::Range(RepetitionRange::AtLeast(n)) => {
+                    let _ = write!(out, " T {}", n);
+                }
+                RepetitionKind::Range(RepetitionRange::Bounded(m, n)) => {
+                    let _ = write!(out, " B {} {}", m, n);
+                }
+            }
+            ser_cast(&r.ast, reg, out)?;
+        }
+        Ast::Group(g) => ser_cast(&g.ast, reg, out)?,
+        Ast::Alternation(a) => {
+            let _ = write!(out, " A {}", a.asts.len());
+            for x in &a.asts {
+                ser_cast(x, reg, out)?;
+            }
+        }
+        Ast::Concat(c) => {
+            let _ = write!(out, " C {}", c.asts.len());
+            for x in &c.asts {
+                ser_cast(x, reg, out)?;
+            }
+        }
+        Ast::Flags(_) | Ast::Assertion(_) => return None,
+    }
+    Some(())
+}
+
+pub fn ser_cpattern(pattern: &str, reg: &mut RegKeys) -> Option<String> {
+    let ast = Parser::new().parse(pattern).ok()?;
+    let mut s = String::new();
+    ser_cast(&ast, reg, &mut s)?;
+    Some(s)
+}
